@@ -323,6 +323,30 @@ def delayCore (s : SeqState) (d : Int) (n : ChName) (atRest : Bool) : Raw :=
       CRes.lift c (if d < 0 then (do let _ ← c.last; .error .durTooShort)
                    else addDelay s.dev.maxSeqDur c d.toNat)
 
+/-- `Sequence._delay` as called by `delay(..., at_rest=True)`: a delay that `validate_duration` is
+going to refuse is refused before the wait for the fall time is appended (repair of F2.1/F2.2:
+the refused call used to leave the fall wait behind). -/
+def delayChecked (s : SeqState) (d : Int) (n : ChName) (atRest : Bool) : Raw :=
+  if atRest && decide (d ≠ 0) && s.measured.isNone then
+    match s.validateChannel n false with
+    | .ok c =>
+      (match (if d < 0 then (.error .durTooShort : Except Err Nat) else validateDuration c.cfg d.toNat) with
+       | .error e => fail s e
+       | .ok _ => delayCore s d n atRest)
+    | .error _ => delayCore s d n atRest
+  else delayCore s d n atRest
+
+theorem delayChecked_cases (s : SeqState) (d : Int) (n : ChName) (atRest : Bool) :
+    delayChecked s d n atRest = delayCore s d n atRest ∨ ∃ e, delayChecked s d n atRest = fail s e := by
+  unfold delayChecked
+  split
+  · split
+    · split
+      · exact .inr ⟨_, rfl⟩
+      · exact .inl rfl
+    · exact .inl rfl
+  · exact .inl rfl
+
 /-- The loop of `Sequence.align`. -/
 def alignLoop (tf : Int) (lastTs : List (ChName × Int)) (s : SeqState) : Raw :=
   match lastTs with
@@ -460,7 +484,7 @@ def stepRaw (s : SeqState) (op : Op) : Raw :=
                            sum := { maxAmp := b.amp, avgAmp := b.amp, maxAbsDetR := absDet,
                                     maxDetR := b.detOn, minDetR := b.detOn } }
       addCore s p n proto (if corr then some (lastEomPulseDrift c) else none)
-  | .delay d n atRest => store op (delayCore s d n atRest)
+  | .delay d n atRest => store op (delayChecked s d n atRest)
   | .align chs atRest =>
     store op <|
       if s.measured.isSome then fail s .measured
